@@ -970,7 +970,7 @@ class Rewriter:
 
     # ---- R12: `for (IDX, X) in RECV.iter().enumerate()` whose index only feeds format! arguments (message text)
     #          -> `for X in &RECV`, the index expressions inside the messages replaced by 0usize
-    def enumerate_msg_only(self, code):
+    def enumerate_msg_only(self, code, force_counter=False):
         n = 0
         while True:
             m = mask(code)
@@ -992,11 +992,34 @@ class Rewriter:
             ob = j
             cb = match_close(m, ob)
             it_expr = code[mm.end():ob].strip()
+            skip = None
+            sk = re.search(r'\s*\.\s*skip\s*\(([^()]*)\)\s*$', it_expr)
+            if sk:
+                skip = sk.group(1).strip()
+                it_expr = it_expr[:sk.start()]
             r2 = re.sub(r'\s*\.\s*iter\s*\(\s*\)\s*\.\s*enumerate\s*\(\s*\)\s*$', '', it_expr)
             if r2 == it_expr:
                 raise ExtractError('enumerate loop of unsupported shape: ' + it_expr[:60])
             body = code[ob:cb + 1]
             bm = mask(body)
+            fspans = []
+            for fm in re.finditer(r'(?<![A-Za-z0-9_])format!\s*\(', bm):
+                fspans.append((fm.end() - 1, match_close(bm, fm.end() - 1)))
+            idx_outside = any(not any(a < u.start() < b for a, b in fspans) for u in re.finditer(r'(?<![A-Za-z0-9_.])' + re.escape(idx) + r'(?![A-Za-z0-9_])', bm))
+            if skip is not None or idx_outside or force_counter:
+                # the index is needed: counter loop  { let mut i = S; while i < E.len() { let x = &E[i]; BODY; i += 1; } }
+                if re.search(r'(?<![A-Za-z0-9_])continue(?![A-Za-z0-9_])', bm):
+                    raise ExtractError('enumerate loop with `continue` cannot become a counter loop')
+                s0 = skip if skip is not None else '0'
+                seq = r2.strip()
+                if seq.startswith('&'):
+                    seq = seq[1:].strip()
+                inner = body[1:-1]
+                rep = ('{ let mut %s: usize = %s; while %s < %s.len() /*@auto invariant %s >= %s; decreases %s.len() - %s*/ { let %s = &%s[%s]; %s\n %s += 1; } }'
+                       % (idx, s0, idx, seq, idx, s0, seq, idx, var, seq, idx, inner, idx))
+                code = code[:mm.start()] + rep + code[cb + 1:]
+                self.note('for (i, x) in v.iter().enumerate()[.skip(s)] -> counter loop', 1)
+                continue
             # every use of idx must be inside a format!(...) call
             spans = []
             for fm in re.finditer(r'(?<![A-Za-z0-9_])format!\s*\(', bm):
@@ -1008,7 +1031,11 @@ class Rewriter:
                 if not any(a < u.start() < b for a, b in spans):
                     raise ExtractError('enumerate index %s is used outside message formatting' % idx)
                 new_body = new_body[:u.start()] + '0usize' + new_body[u.end():]
-            code = code[:mm.start()] + 'for %s in &%s ' % (var, r2) + new_body + code[cb + 1:]
+            if re.match(r'^[a-z_][a-z0-9_]*$', r2.strip()):
+                # a bare local / parameter (possibly a slice): iterate it the way the source does
+                code = code[:mm.start()] + 'for %s in %s.iter() ' % (var, r2.strip()) + new_body + code[cb + 1:]
+            else:
+                code = code[:mm.start()] + 'for %s in &%s ' % (var, r2) + new_body + code[cb + 1:]
             n += 1
         self.note('for (i, x) in v.iter().enumerate() with i used only in messages -> for x in &v', n)
         return code
@@ -1044,7 +1071,7 @@ class Rewriter:
 
     def apply_all(self, code, opts):
         code = self.closure_underscore(code)
-        code = self.enumerate_msg_only(code)
+        code = self.enumerate_msg_only(code, force_counter=bool(opts.get('counter')))
         if opts.get('fmtcat'):
             code = self.format_cat(code, opts['fmtcat'])
         if opts.get('maperr'):
@@ -1064,6 +1091,21 @@ class Rewriter:
         if k_sf:
             code = re.sub(r'(?<![A-Za-z0-9_:])String::from\(', 'vx::string_from(', code)
             self.note('String::from(&str)->vx::string_from', k_sf)
+        # `(A..=B).contains(&X)` on integers -> (A <= X && X <= B)
+        k_rc = 0
+        while True:
+            m_rc = mask(code)
+            mm_rc = re.search(r'\(\s*([0-9]+)\s*\.\.=\s*([0-9]+)\s*\)\s*\.\s*contains\s*\(\s*&', m_rc)
+            if not mm_rc:
+                break
+            op_rc = m_rc.index('(', mm_rc.end() - 3) if False else mm_rc.end() - 1
+            # position of the '(' of contains(
+            op_rc = m_rc.rfind('(', 0, mm_rc.end())
+            cp_rc = match_close(m_rc, op_rc)
+            arg = code[mm_rc.end():cp_rc].strip()
+            code = code[:mm_rc.start()] + '(%s <= %s && %s <= %s)' % (mm_rc.group(1), arg, arg, mm_rc.group(2)) + code[cp_rc + 1:]
+            k_rc += 1
+        self.note('(a..=b).contains(&x)->(a <= x && x <= b)', k_rc)
         # `let x: u32 = EXPR.parse()...;`  (target type given by the let annotation) -> EXPR.vx_parse_u32()
         k_tp = 0
         pos_tp = 0
